@@ -1,101 +1,304 @@
-(* Password.v — detection of password-protected workbooks (property C20).
-   xls  : the globals loop of Xls::parse_workbook at the record level (src/xls.rs): the first
-          FILEPASS record (0x002F) ends the loop with the Password error (after fix 489ec3a for
-          every encryption type); the loop stops at EOF (0x000A); other records are either
-          interpreted (and may fail) or skipped.
-   ods  : the manifest scan of check_for_password_protected (src/ods.rs) at the event level
-          (after fix 73af2a4 elements are matched by local name).
-   xlsx / xlsb : the compound-file sniff is stated over Cfb.v in Password_proofs.v.
-   Definitions only. *)
+(* Password.v — detection of password-protected workbooks (property C20), xls and ods parts.
+   (The compound-file sniff of xlsx / xlsb is in PasswordCfb.v.)
+
+   xls : Xls::new_with_options -> parse_workbook (src/xls.rs), up to the end of the globals loop:
+           the stream lookup `get_stream("Workbook").or_else(get_stream("Book"))`,
+           RecordIter::next at the byte level (record framing, CONTINUE collection, its three
+           EoStream errors), and the globals loop: the FILEPASS arm (0x002F, since fix 489ec3a for
+           every encryption type), the EOF arm (0x000A), and the other arms through a function
+           [interp] (Section variable in the theorems; [interp_real] is the executable instance:
+           CodePage, Date1904, BOF, XF, 0x013D and the catch-all are modelled, the arms that parse
+           strings / formulas — FORMAT, BoundSheet8, Lbl, ExternSheet, SST — answer
+           [Err E_UNMODELLED]).  XlsError::Password is produced nowhere else in src/xls.rs, so what
+           follows the loop cannot change a non-Password result into Password.
+   ods : Ods::new (src/ods.rs): the mimetype gate and check_for_password_protected over the
+           manifest at the level of quick-xml events (since fix 73af2a4 elements are matched by
+           local name = what follows the first ':' of the qualified name).
+   Definitions only; everything computes.  Proofs: Password_proofs.v. *)
 From Calamine Require Import Prelude.
 Open Scope N_scope.
 Set Implicit Arguments.
 
-(* ------------------------------------------------------------------ xls globals loop *)
-Inductive scan_result : Type :=
-| SPassword                (* Err(XlsError::Password) *)
-| SOther (e : N)           (* another error raised by an interpreted record *)
-| SDone.                   (* loop finished (EOF record or end of stream) without FILEPASS *)
+(* error classes (only the class travels on the wire) *)
+Definition E_PASSWORD : N := 1.     (* XlsError::Password / OdsError::Password / XlsxError::Password … *)
+Definition E_OTHER : N := 2.        (* any other error of the reader *)
+Definition E_UNMODELLED : N := 99.  (* an arm of the globals loop that this model does not interpret *)
 
+(* ================================================================== xls: RecordIter *)
+Definition u16 (a b : N) : N := a + 256 * b.
+
+Record frec : Type := mkRec {
+  f_typ : N;
+  f_data : list N;
+  f_cont : option (list (list N))
+}.
+
+(* split_at(n): None when the slice is shorter than n *)
+Fixpoint take_n (s : list N) (n : N) {struct s} : option (list N * list N) :=
+  if n =? 0 then Some ([], s) else
+  match s with
+  | [] => None
+  | x :: t => match take_n t (n - 1) with
+              | Some (a, b) => Some (x :: a, b)
+              | None => None
+              end
+  end.
+
+Definition CONTINUE : N := 60.     (* 0x003C *)
 Definition FILEPASS : N := 47.     (* 0x002F *)
 Definition EOF_REC : N := 10.      (* 0x000A *)
 
-Section XlsGlobals.
-(* [interp t body] is what an interpreted record other than FILEPASS/EOF does to the loop:
-   None = carry on, Some e = the loop returns that error.  It is a parameter: the record parsers
-   are modelled in BiffSst.v / BiffRec.v / Meta.v; C20 only needs that they run BEFORE the scan
-   reaches a later record. *)
-Variable interp : N -> list N -> option N.
-
-Fixpoint globals_scan (recs : list (N * list N)) : scan_result :=
-  match recs with
-  | [] => SDone
-  | (t, body) :: rest =>
-      if t =? FILEPASS then SPassword
-      else if t =? EOF_REC then SDone
-      else match interp t body with
-           | Some e => SOther e
-           | None => globals_scan rest
-           end
+(* while self.stream.len() > 4 && read_u16(self.stream) == 0x003C { … }
+   fuel: every iteration consumes at least four bytes; callers pass the length of the stream *)
+Fixpoint collect_cont (fuel : nat) (s : list N) (acc : list (list N))
+  : outcome (list (list N) * list N) :=
+  match fuel with
+  | O => OutOfFuel
+  | S f =>
+    match s with
+    | c0 :: c1 :: l0 :: l1 :: ((_ :: _) as body) =>
+        if u16 c0 c1 =? CONTINUE then
+          match take_n body (u16 l0 l1) with
+          | None => Err E_OTHER                   (* EoStream("continue record length") *)
+          | Some (d, rest) => collect_cont f rest (acc ++ [d])
+          end
+        else Ok (acc, s)
+    | _ => Ok (acc, s)
+    end
   end.
+
+Definition starts_cont (s : list N) : bool :=       (* next.len() > 4 && read_u16(next) == 0x3C *)
+  match s with
+  | c0 :: c1 :: _ :: _ :: _ :: _ => u16 c0 c1 =? CONTINUE
+  | _ => false
+  end.
+
+(* RecordIter::next.  None = end of stream. *)
+Definition next_record (s : list N) : option (outcome (frec * list N)) :=
+  match s with
+  | [] => None
+  | t0 :: t1 :: l0 :: l1 :: body =>
+      match take_n body (u16 l0 l1) with
+      | None => Some (Err E_OTHER)                (* EoStream("record length") *)
+      | Some (d, next) =>
+          if starts_cont next then
+            Some (do cr <- collect_cont (length next) next [];
+                  Ok (mkRec (u16 t0 t1) d (Some (fst cr)), snd cr))
+          else Some (Ok (mkRec (u16 t0 t1) d None, next))
+      end
+  | _ => Some (Err E_OTHER)                       (* EoStream("record type and length") *)
+  end.
+
+(* ================================================================== xls: the globals loop *)
+Section XlsGlobals.
+(* what an arm other than FILEPASS / EOF does to the loop: Ok tt = carry on; Err / Panic = the
+   loop (and Xls::new) ends that way *)
+Variable interp : frec -> outcome unit.
+
+(* `for record in records { let mut r = record?; match r.typ { … } }`
+   fuel: one unit per record; the length of the stream (+1) always suffices *)
+Fixpoint globals_loop (fuel : nat) (s : list N) : outcome unit :=
+  match fuel with
+  | O => OutOfFuel
+  | S f =>
+    match next_record s with
+    | None => Ok tt
+    | Some o =>
+        do rr <- o;
+        if f_typ (fst rr) =? FILEPASS then Err E_PASSWORD
+        else if f_typ (fst rr) =? EOF_REC then Ok tt
+        else do _ <- interp (fst rr); globals_loop f (snd rr)
+    end
+  end.
+
+Definition xls_globals (s : list N) : outcome unit := globals_loop (S (length s)) s.
+
+(* Xls::new_with_options after Cfb::new succeeded: the VBA project is read first when a directory
+   entry `_VBA_PROJECT_CUR` exists; then the Workbook stream, else the Book stream.
+   [vba], [workbook], [book] are the outcomes of VbaProject::from_cfb and of the two
+   cfb.get_stream calls (compound-file model: C13 / Cfb.v). *)
+Definition or_else (A : Type) (a b : outcome A) : outcome A :=
+  match a with Err _ => b | _ => a end.
+
+Definition xls_new (has_vba : bool) (vba : outcome unit) (workbook book : outcome (list N))
+  : outcome unit :=
+  do _ <- (if has_vba then vba else Ok tt);
+  do s <- or_else workbook book;
+  xls_globals s.
 End XlsGlobals.
 
-(* ------------------------------------------------------------------ ods manifest scan *)
-(* events as quick-xml delivers them with expand_empty_elements: only the local name matters *)
+(* ---- the executable instance of [interp] ---- *)
+(* codepage::to_encoding (crate codepage 0.1.3): the 53 identifiers of its CODE_PAGES table *)
+Definition CODE_PAGES : list N :=
+  [65001; 1200; 1252; 1251; 936; 932; 949; 1250; 1256; 1254; 950; 874; 1255; 1253; 1257; 1258;
+   20932; 28592; 28605; 28597; 20866; 54936; 28595; 38598; 28594; 28596; 50221; 21866; 28603;
+   28593; 1201; 866; 28600; 28598; 10000; 10017; 28604; 28606; 951; 10007; 20936; 20949; 21010;
+   28591; 28599; 28601; 50220; 50222; 50225; 50227; 51936; 51949; 52936].
+
+(* arms that parse strings / formulas: FORMAT 0x041E, BoundSheet8 0x0085, Lbl 0x0018,
+   ExternSheet 0x0017, SST 0x00FC *)
+Definition unmodelled_typ (t : N) : bool :=
+  (t =? 1054) || (t =? 133) || (t =? 24) || (t =? 23) || (t =? 252).
+
+Definition interp_real (r : frec) : outcome unit :=
+  let t := f_typ r in
+  if t =? 66 then                                  (* 0x0042 CodePage (force_codepage is None) *)
+    match f_data r with
+    | a :: b :: _ => if existsb (N.eqb (u16 a b)) CODE_PAGES then Ok tt else Err E_OTHER
+    | _ => Panic                                   (* read_u16 on a short slice *)
+    end
+  else if t =? 34 then                             (* 0x0022 Date1904 *)
+    match f_data r with _ :: _ :: _ => Ok tt | _ => Panic end
+  else if t =? 2057 then                           (* 0x0809 BOF: parse_bof, &r.data[..2] *)
+    match f_data r with _ :: _ :: _ => Ok tt | _ => Panic end
+  else if t =? 224 then                            (* 0x00E0 XF: parse_xf *)
+    match f_data r with _ :: _ :: _ :: _ :: _ => Ok tt | _ => Err E_OTHER end
+  else if unmodelled_typ t then Err E_UNMODELLED
+  else Ok tt.                                      (* 0x013D and `_ => ()` *)
+
+(* ---- encoder side: a globals stream as the writer lays it out ---- *)
+Definition lo (n : N) : N := n mod 256.
+Definition hi (n : N) : N := n / 256.
+Definition lenN (A : Type) (l : list A) : N := N.of_nat (length l).
+
+(* one BIFF record: type, length, body *)
+Definition rec_bytes (t : N) (body : list N) : list N :=
+  lo t :: hi t :: lo (lenN body) :: hi (lenN body) :: body.
+
+(* a logical record with the CONTINUE records that follow it *)
+Record item : Type := mkItem { i_typ : N; i_body : list N; i_conts : list (list N) }.
+
+Definition item_bytes (it : item) : list N :=
+  rec_bytes (i_typ it) (i_body it) ++ concat (map (rec_bytes CONTINUE) (i_conts it)).
+
+Definition item_rec (it : item) : frec :=
+  mkRec (i_typ it) (i_body it)
+        (match i_conts it with [] => None | c => Some c end).
+
+Definition body_ok (b : list N) : bool := lenN b <=? 65535.
+Definition item_ok (it : item) : bool :=
+  (i_typ it <=? 65535) && negb (i_typ it =? CONTINUE) &&
+  body_ok (i_body it) && forallb body_ok (i_conts it).
+
+(* plain records (any type, CONTINUE included) — what follows a FILEPASS record: record headers
+   stay in clear under XOR obfuscation and RC4 / CryptoAPI encryption, the bodies are ciphertext *)
+Definition raw_ok (r : N * list N) : bool := (fst r <=? 65535) && body_ok (snd r).
+Definition raw_bytes (rs : list (N * list N)) : list N :=
+  concat (map (fun r => rec_bytes (fst r) (snd r)) rs).
+
+(* ================================================================== ods *)
+(* events as quick-xml delivers them with expand_empty_elements = true (an empty-element tag
+   arrives as Start + End), check_end_names = false: only Start events are looked at; MErr is a
+   reader error (ill-formed markup), after which the check returns OdsError::Xml *)
 Inductive mevent : Type :=
-| MStart (local : list N)
-| MEnd (local : list N)
-| MOther.                          (* text, comments, declarations, processing instructions *)
+| MStart (qname : list N)
+| MEnd (qname : list N)
+| MOther                           (* text, comments, declarations, processing instructions … *)
+| MErr.
 
 Definition str_eqb (a b : list N) : bool :=
   (Nat.eqb (length a) (length b)) && forallb (fun p => fst p =? snd p) (combine a b).
 
-(* "file-entry" and "encryption-data" as character codes *)
+Definition COLON : N := 58.
+(* QName::local_name: what follows the first ':' (the whole name when there is none) *)
+Fixpoint after_colon (l : list N) : option (list N) :=
+  match l with
+  | [] => None
+  | c :: t => if c =? COLON then Some t else after_colon t
+  end.
+Definition local_name (q : list N) : list N :=
+  match after_colon q with Some t => t | None => q end.
+
+(* "file-entry" and "encryption-data" as bytes *)
 Definition FILE_ENTRY : list N := [102;105;108;101;45;101;110;116;114;121].
 Definition ENCRYPTION_DATA : list N := [101;110;99;114;121;112;116;105;111;110;45;100;97;116;97].
 
 (* inner loop: after a file-entry start, every later event up to Eof is examined *)
-Fixpoint inner_scan (evs : list mevent) : bool :=
+Fixpoint inner_scan (evs : list mevent) : outcome unit :=
   match evs with
-  | [] => false
-  | MStart n :: rest => if str_eqb n ENCRYPTION_DATA then true else inner_scan rest
+  | [] => Ok tt
+  | MStart q :: rest =>
+      if str_eqb (local_name q) ENCRYPTION_DATA then Err E_PASSWORD else inner_scan rest
+  | MErr :: _ => Err E_OTHER
   | _ :: rest => inner_scan rest
   end.
 
-(* outer loop: look for a file-entry start *)
-Fixpoint manifest_scan (evs : list mevent) : bool :=
+(* outer loop: look for a file-entry start; once the inner loop has run to Eof the outer loop
+   reads Eof too *)
+Fixpoint manifest_scan (evs : list mevent) : outcome unit :=
   match evs with
-  | [] => false
-  | MStart n :: rest => if str_eqb n FILE_ENTRY then inner_scan rest else manifest_scan rest
+  | [] => Ok tt
+  | MStart q :: rest =>
+      if str_eqb (local_name q) FILE_ENTRY then inner_scan rest else manifest_scan rest
+  | MErr :: _ => Err E_OTHER
   | _ :: rest => manifest_scan rest
   end.
 
-(* ---- spec: a manifest is a list of file entries, each with or without encryption data ---- *)
+(* "application/vnd.oasis.opendocument.spreadsheet" *)
+Definition MIMETYPE : list N :=
+  [97;112;112;108;105;99;97;116;105;111;110;47;118;110;100;46;111;97;115;105;115;46;111;112;101;
+   110;100;111;99;117;109;101;110;116;46;115;112;114;101;97;100;115;104;101;101;116].
+
+(* Ods::new up to and including the password check, after ZipArchive::new succeeded:
+   mimetype = content of the zip member "mimetype" (None: no such member),
+   manifest = events of META-INF/manifest.xml (None: no such member) *)
+Definition ods_new (mimetype : option (list N)) (manifest : option (list mevent)) : outcome unit :=
+  match mimetype with
+  | None => Err E_OTHER                                  (* FileNotFound("mimetype") *)
+  | Some m =>
+      if (length m <? 46)%nat then Err E_OTHER           (* read_exact: Io *)
+      else if negb (str_eqb (firstn 46 m) MIMETYPE) then Err E_OTHER   (* InvalidMime *)
+      else match manifest with
+           | None => Err E_OTHER                         (* FileNotFound("META-INF/manifest.xml") *)
+           | Some evs => manifest_scan evs
+           end
+  end.
+
+(* ---- spec: a manifest is a list of file entries, each with or without encryption data;
+        every element carries the namespace prefix its author chose ---- *)
+Definition qn (prefix : option (list N)) (local : list N) : list N :=
+  match prefix with Some p => p ++ COLON :: local | None => local end.
+
 Record entry : Type := mkEntry {
+  e_prefix : option (list N);          (* prefix of the file-entry element *)
   e_encrypted : bool;
-  e_children_before : list (list N);   (* other child element names (start+end), e.g. none *)
-  e_algo_children : list (list N)      (* children of encryption-data: algorithm, key-derivation… *)
+  e_enc_prefix : option (list N);      (* prefix of the encryption-data element *)
+  e_children_before : list (list N);   (* qualified names of other child elements (start + end) *)
+  e_algo_children : list (list N)      (* children of encryption-data: algorithm, key-derivation … *)
 }.
 
-Definition render_elem (n : list N) : list mevent := [MStart n; MEnd n].
+Definition render_elem (q : list N) : list mevent := [MStart q; MEnd q].
 
 Definition render_entry (e : entry) : list mevent :=
-  [MStart FILE_ENTRY] ++
+  [MStart (qn (e_prefix e) FILE_ENTRY)] ++
   concat (map render_elem (e_children_before e)) ++
   (if e_encrypted e
-   then [MStart ENCRYPTION_DATA] ++ concat (map render_elem (e_algo_children e)) ++ [MEnd ENCRYPTION_DATA]
+   then [MStart (qn (e_enc_prefix e) ENCRYPTION_DATA)] ++
+        concat (map render_elem (e_algo_children e)) ++
+        [MEnd (qn (e_enc_prefix e) ENCRYPTION_DATA)]
    else []) ++
-  [MEnd FILE_ENTRY].
+  [MEnd (qn (e_prefix e) FILE_ENTRY)].
 
 Definition MANIFEST : list N := [109;97;110;105;102;101;115;116].
 
-Definition render_manifest (es : list entry) : list mevent :=
-  [MOther; MStart MANIFEST] ++ concat (map (fun e => MOther :: render_entry e) es) ++ [MOther; MEnd MANIFEST].
+Definition render_manifest (root_prefix : option (list N)) (es : list entry) : list mevent :=
+  [MOther; MStart (qn root_prefix MANIFEST)] ++
+  concat (map (fun e => MOther :: render_entry e) es) ++
+  [MOther; MEnd (qn root_prefix MANIFEST)].
 
 Definition declares_encryption (es : list entry) : bool := existsb e_encrypted es.
 
-(* names that do not collide with the two the scan looks for *)
-Definition neutral_name (n : list N) : bool :=
-  negb (str_eqb n FILE_ENTRY) && negb (str_eqb n ENCRYPTION_DATA).
-Definition neutral_entry (e : entry) : bool :=
+Definition colon_free (p : list N) : bool := forallb (fun c => negb (c =? COLON)) p.
+Definition prefix_ok (p : option (list N)) : bool :=
+  match p with Some p => colon_free p | None => true end.
+
+(* qualified names whose local part is neither of the two the scan looks for *)
+Definition neutral_name (q : list N) : bool :=
+  negb (str_eqb (local_name q) FILE_ENTRY) && negb (str_eqb (local_name q) ENCRYPTION_DATA).
+Definition entry_ok (e : entry) : bool :=
+  prefix_ok (e_prefix e) && prefix_ok (e_enc_prefix e) &&
   forallb neutral_name (e_children_before e) && forallb neutral_name (e_algo_children e).
+
+(* the answer the property demands *)
+Definition spec_ods (es : list entry) : outcome unit :=
+  if declares_encryption es then Err E_PASSWORD else Ok tt.
